@@ -14,6 +14,7 @@ RULES = {
     "C11.R6": "the dynamic weight path stays in the autograd graph: no no_grad / set_grad_enabled / inference_mode context and no .detach() / .data around the quantization of self.weight in qweight, forward or qforward",
     "C11.R9": "the twin's parameters keep their own requires_grad flags: from_module copies weight and bias under no_grad and does nothing else to them (rule C08.R4 re-checked: a blanket requires_grad_ makes the bias follow the weight's flag)",
     "C11.R10": "what a forward saved for its backward is not rewritten: the activation-scale buffers, which the modules hand as they are to the activations they quantize (and the linear function saves), are replaced by calibration, never written in place",
+    "C11.R14": "the scale (and zero-point) quantize_weight hands to the quantizers are evaluated outside the graph of the weights (under torch.no_grad(), or detached): the quantizers give them no gradient, and a graph that saves the weight makes a weight update between a forward and its backward a version-counter error the float module does not raise",
     "C11.R13": "(= C05.R18 (a), value handlers) the result of a handler that is not a view owns its scale and its payload: a tensor saved for a backward is never rewritten through a result that shares its inner tensors (autograd's version counters do not see them)",
     "C11.R12": "a sum evaluated block by block covers every row: a loop over `range(n // k)` that addresses blocks `[i * k : (i + 1) * k]` is followed by the handling of the `n % k` remaining rows (or iterates over ceil-divided / stepped ranges) - in the functions the linear backward reaches and in the kernels",
     "C11.R11": "function-level interceptions keep the graph: a wrapper registered for a torch function runs ABOVE autograd, so whatever it returns is either the result of an autograd Function (`X.apply(...)`), of a differentiable library call, or of the function re-issued on other arguments - never a quantized tensor it assembled itself from payloads",
@@ -56,6 +57,7 @@ def run(chk):
         c13.saved_scale_mutation(chk, "C11.R10")
         wrappers_keep_graph(chk)
         block_loops_cover(chk)
+        scale_outside_graph(chk)
         # what a forward saved is a quantized tensor whose inner payload / scale carry no version counter: a result that shares them with its operand
         # lets a later in-place op (written back since 683c0c3) rewrite the saved operand unnoticed
         from . import c05
@@ -311,6 +313,49 @@ def raw_payload_backward(chk):
     vs = views_on_inputs(bwd, saved)
     chk.require("C11.R8", site, not vs, f"QTensorLinear.backward flattens gO and the saved tensors with reshape ({[U(v)[:40] for v in vs]})", "QTensorLinear.backward", "view on a saved tensor or gradient",
                 "a non-contiguous input (x.transpose(1, 2)) to an unfrozen quantized linear: backward raises `view size is not compatible` where the float module's backward works")
+
+
+def scale_outside_graph(chk, rule="C11.R14"):
+    repo = chk.repo
+    mi, _ = repo.func("quantize_weight")
+    NOGRAD = ("torch.no_grad()", "torch.inference_mode()", "torch.set_grad_enabled(False)", "torch.autograd.no_grad()")
+    n = 0
+    # the entry point and the helpers of its module it may be split into
+    for fn in [x for x in ast.walk(mi.tree) if isinstance(x, ast.FunctionDef)]:
+        binds = []  # (line, names, outside the graph)
+
+        def visit(body, nograd):
+            for st in body:
+                if isinstance(st, (ast.FunctionDef, ast.ClassDef)):
+                    continue
+                if isinstance(st, (ast.Assign, ast.AnnAssign)) and getattr(st, "value", None) is not None:
+                    names = []
+                    for t in (st.targets if isinstance(st, ast.Assign) else [st.target]):
+                        names += [e.id for e in (t.elts if isinstance(t, (ast.Tuple, ast.List)) else [t]) if isinstance(e, ast.Name)]
+                    detached = isinstance(st.value, ast.Call) and isinstance(st.value.func, ast.Attribute) and st.value.func.attr == "detach"
+                    binds.append((st.lineno, names, nograd or detached))
+                if isinstance(st, ast.With):
+                    visit(st.body, nograd or any(U(it.context_expr) in NOGRAD for it in st.items))
+                else:
+                    for fld in ("body", "orelse", "finalbody", "handlers"):
+                        sub = getattr(st, fld, None)
+                        if isinstance(sub, list):
+                            visit([x for x in sub if isinstance(x, ast.stmt)] + [y for h in sub if isinstance(h, ast.ExceptHandler) for y in h.body], nograd)
+
+        visit(fn.body, False)
+        for c in [x for x in ast.walk(fn) if isinstance(x, ast.Call) and U(x.func).endswith("Quantizer.apply")]:
+            # the arguments after (t, qtype, axis[, group_size]) are the scale and the zero-point
+            for a in c.args[3:]:
+                if isinstance(a, ast.Name) and a.id == "group_size":
+                    continue
+                n += 1
+                ok = isinstance(a, ast.Call) and isinstance(a.func, ast.Attribute) and a.func.attr == "detach"
+                if isinstance(a, ast.Name):
+                    last = max([b for b in binds if a.id in b[1] and b[0] < c.lineno], key=lambda b: b[0], default=None)
+                    ok = last is not None and last[2]
+                chk.require(rule, f"{mi.rel}:{c.lineno}", ok, f"{fn.name}: `{U(a)[:40]}` handed to {U(c.func)} is evaluated outside the graph of the weights (no_grad block or detach): {ok}", fn.name, "scale evaluated in the graph of the weights",
+                            "m = QLinear (unfrozen); y = m(x) with x not requiring grad; with torch.no_grad(): m.weight.mul_(0.9) (an optimizer step); y.backward(): RuntimeError 'modified by an inplace operation', the float Linear returns its gradients")
+    chk.floor(rule, n, 3, "scale / zero-point arguments of the quantizers in the module of quantize_weight")
 
 
 def wrappers_keep_graph(chk):
